@@ -37,7 +37,27 @@ def main():
         S + "tail_ok": dict(params={"s": "str"}, requires="is_name(s)", returns="str",
                             ensures="net(result) == net(s) + 1 and is_name(result)", file="selftest"),
     })
-    expect = {"count_ok": True, "count_bad": False, "mod_ok": True, "idx_bad": False, "tail_ok": True}
+    # a method that returns self (the caller must get the SAME object back, not a fresh one: a fresh one made the
+    # assumed postcondition contradictory and everything after the call vacuously true)
+    eng.classes["Cell"] = {"class": "pyvc.selftest_samples.Cell", "fields": {"v": "int"}}
+    eng.contracts[S + "Cell.put"] = dict(params={"self": "Cell", "v": "int"}, returns="Cell",
+                                         ensures=[("returns-self", "same_object(result, self)"), ("stored", "self.v == v")],
+                                         modifies=["param:self"], havoc={"self.v": "=v"}, file="selftest")
+    for nm in ("chain_ok", "chain_bad"):
+        eng.contracts[S + nm] = dict(params={"c": "Cell"}, returns="int", ensures="result == 4",
+                                     modifies=["param:c"], file="selftest")
+    # appending a structured entry to a list of unknown length
+    for nm in ("append_ok", "append_bad"):
+        eng.contracts[S + nm] = dict(params={"log": "list[any]", "x": "int"}, returns="int",
+                                     old={"old_len": "len(log)", "old_log": "log"},
+                                     ensures=[("one-more", "result == old_len + 1 and len(log) == old_len + 1"),
+                                              ("entry", "log[len(log) - 1][0] == x and log[len(log) - 1][1] == 1"),
+                                              ("prefix", "list_prefix_same(log, old_log, old_len)")],
+                                     modifies=["param:log"], file="selftest")
+    # a mutable default argument is shared state: writing to it is outside an empty frame
+    eng.contracts[S + "default_bad"] = dict(params={"x": "int"}, returns="int", ensures="result >= 1", modifies=[],
+                                            file="selftest")
+    expect = {"default_bad": False, "chain_ok": True, "chain_bad": False, "append_ok": True, "append_bad": False, "count_ok": True, "count_bad": False, "mod_ok": True, "idx_bad": False, "tail_ok": True}
     rc = 0
     for name, want in sorted(expect.items()):
         r = eng.verify(S + name)
